@@ -147,8 +147,8 @@ pub fn run(_args: &[String]) -> i32 {
             }
             (Err(er), _) | (_, Err(er)) => bad.push((desc.clone(), format!("split ledger rejected: {}", er.lines().next().unwrap_or("")))),
         }
-        // in-memory file system (no `..` support there)
-        if !name.contains("`..`") {
+        // in-memory file system (every layout, also those that go back through `..`: the statement names both file systems)
+        {
             evaluated += 1;
             match (deliver_fake(files), &baseline) {
                 (Ok(g), Some((bg, _))) => {
